@@ -452,21 +452,32 @@ def validate_traces(module, events, nproc=None, cfg=None, timeout=1500, heap="3g
     {verdicts: [{l,id,e,why,detail}], stats, lines}. Returns (verdicts, stats, tlc_results)."""
     from concurrent.futures import ThreadPoolExecutor
     nproc = nproc or NCPU
-    chunks = parallel_chunks(events, nproc)
     tdir = tempfile.mkdtemp(prefix="trace-", dir=scratch_root())
-    def work(args):
-        i, execs = args
-        path = os.path.join(tdir, "t%d.ndjson" % i)
-        with open(path, "w") as fh:
-            for ex_ in execs:
-                fh.write(json.dumps({"e": "Reset", "id": ex_[0].get("id", "")}) + "\n")
-                for ev in ex_:
-                    fh.write(json.dumps(ev) + "\n")
+    # the executions are written to at least nproc trace files of bounded size (one TLC process reads a whole file
+    # into memory: a trace of a gigabyte does not fit its heap and shows up as a JSON parse failure)
+    max_bytes = int(os.environ.get("VERIF_TRACE_BYTES", 96 * 1024 * 1024))
+    per_file = max(1, (len(events) + nproc - 1) // nproc)
+    paths, fh, size, count = [], None, 0, 0
+    for ex_ in events:
+        if fh is None or count >= per_file or size >= max_bytes:
+            if fh:
+                fh.close()
+            paths.append(os.path.join(tdir, "t%d.ndjson" % len(paths)))
+            fh, size, count = open(paths[-1], "w"), 0, 0
+        lines = [json.dumps({"e": "Reset", "id": ex_[0].get("id", "")})] + [json.dumps(ev) for ev in ex_]
+        txt = "\n".join(lines) + "\n"
+        fh.write(txt)
+        size += len(txt)
+        count += 1
+    if fh:
+        fh.close()
+    def work(path):
         return run_tlc(module, cfg=cfg, workers=1, env={"TRACE": path}, timeout=timeout, heap=heap)
+    chunks = paths
     verdicts, stats, ress = [], {"execs": 0, "events": 0, "failed": 0}, []
     try:
         with ThreadPoolExecutor(max_workers=nproc) as ex:
-            for res in ex.map(work, list(enumerate(chunks))):
+            for res in ex.map(work, chunks):
                 ress.append(res)
                 if res.error or res.rc != 0 or not res.cases:
                     if getattr(res, "unparsed", None):
